@@ -58,10 +58,8 @@ func cLimit(shapeClass string, tRel float64) float64 {
 }
 
 func viol(r *fw.R, sps []oracle.Subpath, class, detail string) {
-	if curvefam.ArcChordEqualsRx(sps) {
-		detail = "[" + class + "] " + detail
-		class = curvefam.ArcShortcutClass
-	}
+	// (the half-ellipse shortcut for arcs whose chord equals rx was repaired, F27: such arcs are
+	// classified like any other arc)
 	r.Count("violations:"+class, 1)
 	r.Violate(class, detail)
 }
